@@ -317,7 +317,27 @@ Fixpoint read_pages (fuel : nat) (st : rstate) (ch cursor : string) (limit : Z) 
   end.
 
 Definition rm_read_single (st : rstate) (ch key : string) (rev_ : option (N * string)) : rstate * mres :=
-  if is_ephemeral cf then (st, MErr) (* streamless single-key read: not part of the modelled domain *) else
+  if is_ephemeral cf then
+    (* streamless: HGET only; no meta, no revision check, zero position *)
+    let '(st1, r1) := redis_call st ["hget"; k_state ch; key] in
+    match r1 with
+    | RErr _ => (st1, MErr)
+    | RNil => (st1, MState [] 0 "")
+    | _ => match to_str r1 with
+           | inr v =>
+               if String.eqb v "" then (st1, MState [] 0 "") else
+               match parse_state_value v with
+               | Some (eo, _, payload) =>
+                   match unpb payload with
+                   | Some (_, data, _, score) => (st1, MState [(key, eo, data, score)] 0 "")
+                   | None => (st1, MErr)
+                   end
+               | None => (st1, MErr)
+               end
+           | inl _ => (st1, MErr)
+           end
+    end
+  else
   let '(st1, r1) := redis_call st ["hget"; k_state ch; key] in
   let '(st2, r2) := redis_call st1 ["hmget"; k_meta ch; "s"; "e"] in
   match (match r1 with RErr _ => None | RNil => Some None | _ => match to_str r1 with inr v => Some (Some v) | inl _ => None end end),
